@@ -42,6 +42,10 @@ RespOK(e, exp) ==
        CASE e.ev \in {"CreateTable", "GetTable", "ModifyFamilies"} -> FamsOK(got.fams, exp.fams)
          [] e.ev = "ListTables" -> /\ Len(got.names) = Cardinality({got.names[i] : i \in 1..Len(got.names)})
                                    /\ {got.names[i] : i \in 1..Len(got.names)} = exp.names
+         \* the token is one the service issues for this table and for no other (the harness reports for which
+         \* table name it has seen that very string issued)
+         [] e.ev = "GenerateToken" -> got.tokFor = exp.tokFor
+         [] e.ev = "CheckConsistency" -> got.consistent = exp.consistent
          [] e.ev = "MutateRows" -> /\ Len(got.entries) = Len(exp.entries)
                                    /\ \A i \in 1..Len(got.entries) : (got.entries[i] = 0) = exp.entries[i]
          [] e.ev = "CheckAndMutate" -> got.matched = exp.matched
